@@ -250,3 +250,6 @@ def run(ctx):
                 I6.run_fn(c06.FN)
                 c06.bind(cfg, crate, I6, rep, "%s|%s" % (cfg, c06.FN))
             common.borrow_rules(rep, _c06, "C06.", "C07.key")
+            # "exactly the requested key usages": the shared KeyUsage writer ORs one distinct bit per purpose
+            import c02
+            c02.ku_encoding(cfg, crate, rep, rule="C07.ku")
